@@ -349,3 +349,90 @@ Qed.
 
 Lemma srefs_live c : srefs (Live c) = olist c.
 Proof. destruct c; auto. Qed.
+
+(* ------------------------------------------------------------------ views through the primitives *)
+
+Lemma view_pset e d s st :
+  view_of e (pset d s st) =
+  if Nat.eqb d e && Nat.ltb d (length (st_pool st)) then vslot (st_heap st) s else view_of e st.
+Proof.
+  unfold view_of, pget, pset; simpl. rewrite nth_upd.
+  destruct (Nat.eqb d e && Nat.ltb d (length (st_pool st))); auto.
+Qed.
+
+Lemma view_alloc X e c st : invx X st -> view_of e (snd (alloc c st)) = view_of e st.
+Proof.
+  intro I. unfold view_of, pget; simpl. apply vslot_frame. intros l H.
+  pose proof (inv_owned_lt _ _ _ _ I H). simpl.
+  destruct (Nat.eqb_spec (st_next st) l); auto. lia.
+Qed.
+
+Lemma view_delete X e l st : invx (l :: X) st -> view_of e (delete_content (Some l) st) = view_of e st.
+Proof.
+  intro I. rewrite (delete_eq _ _ _ I). unfold view_of, pget; simpl. apply vslot_frame. intros l' H.
+  apply hget_hrem_other. intro; subst. eapply temp_not_in_pool; eauto.
+Qed.
+
+Lemma view_delete_opt X e p st : invx (olist p ++ X) st -> view_of e (delete_content p st) = view_of e st.
+Proof. destruct p; simpl; auto. apply view_delete. Qed.
+
+Lemma pool_delete p st : st_pool (delete_content p st) = st_pool st.
+Proof. destruct p; simpl; auto. destruct (hget l (st_heap st)); auto. Qed.
+
+Lemma clone_some l c st : hget l (st_heap st) = Some c -> clone (Some l) st = (Some (st_next st), snd (alloc c st)).
+Proof. intro H. unfold clone. rewrite H. reflexivity. Qed.
+
+Lemma view_holds d l t v st : pget d st = Live (Some l) -> hget l (st_heap st) = Some (t, v) -> view_of d st = VHolds t v.
+Proof. intros H1 H2. unfold view_of. rewrite H1. simpl. rewrite H2. auto. Qed.
+
+Lemma view_empty d st : pget d st = Live None -> view_of d st = VEmpty.
+Proof. intros H. unfold view_of. rewrite H. auto. Qed.
+
+Lemma pset_comm d e a b st : d <> e -> pset d a (pset e b st) = pset e b (pset d a st).
+Proof.
+  intro ne. unfold pset; simpl. f_equal.
+  generalize (st_pool st) as p. clear st. revert e ne.
+  induction d; intros e ne p; destruct p, e; simpl; auto; try congruence.
+  f_equal. apply IHd. lia.
+Qed.
+
+(* ------------------------------------------------------------------ the member functions *)
+
+Ltac views_goal :=
+  apply views_ext; [ simpl; rewrite ?pool_delete; simpl; rewrite ?length_upd, ?length_views; auto | intro e ].
+
+Lemma default_ok st d : inv st -> is_free d st = true ->
+  inv (m_default d st) /\ views (m_default d st) = upd d VEmpty (views st).
+Proof.
+  intros I F. destruct (is_free_lt _ _ F) as [Hlt Hd]. unfold m_default. split.
+  - pose proof (pset_ok [] st d (Live None) Hlt I) as H. rewrite Hd in H. exact H.
+  - views_goal. rewrite view_pset, nth_upd, nth_views, length_views. auto.
+Qed.
+
+Lemma value_ctor_ok st d t v : inv st -> is_free d st = true ->
+  inv (m_value_ctor d t v st) /\ views (m_value_ctor d t v st) = upd d (VHolds t v) (views st).
+Proof.
+  intros I F. destruct (is_free_lt _ _ F) as [Hlt Hd]. unfold m_value_ctor.
+  change (alloc (t, v) st) with (st_next st, snd (alloc (t, v) st)). cbv iota beta.
+  pose proof (alloc_ok [] st (t, v) I) as I1. split.
+  - pose proof (pset_ok [] (snd (alloc (t, v) st)) d (Live (Some (st_next st))) Hlt I1) as H.
+    unfold pget in H; simpl in H. unfold pget in Hd. rewrite Hd in H. exact H.
+  - views_goal. rewrite view_pset, nth_upd, nth_views, length_views. simpl. rewrite Nat.eqb_refl.
+    rewrite (view_alloc _ _ _ _ I). auto.
+Qed.
+
+Lemma copy_ctor_ok st d s : inv st -> is_free d st = true -> is_live s st = true ->
+  inv (m_copy_ctor d s st) /\ views (m_copy_ctor d s st) = upd d (view_of s st) (views st).
+Proof.
+  intros I F L. destruct (is_free_lt _ _ F) as [Hlt Hd]. pose proof (is_live_content _ _ L) as Hs.
+  unfold m_copy_ctor. destruct (content s st) as [ls|] eqn:Cs.
+  - destruct (inv_owned _ _ _ _ I Hs) as [[t v] Hc]. rewrite (clone_some _ _ _ Hc).
+    pose proof (alloc_ok [] st (t, v) I) as I1. split.
+    + pose proof (pset_ok [] (snd (alloc (t, v) st)) d (Live (Some (st_next st))) Hlt I1) as H.
+      unfold pget in H; simpl in H. unfold pget in Hd. rewrite Hd in H. exact H.
+    + views_goal. rewrite view_pset, nth_upd, nth_views, length_views. simpl. rewrite Nat.eqb_refl.
+      rewrite (view_alloc _ _ _ _ I). rewrite (view_holds _ _ _ _ _ Hs Hc). auto.
+  - simpl. split.
+    + pose proof (pset_ok [] st d (Live None) Hlt I) as H. rewrite Hd in H. exact H.
+    + views_goal. rewrite view_pset, nth_upd, nth_views, length_views. rewrite (view_empty _ _ Hs). auto.
+Qed.
